@@ -199,12 +199,21 @@ def replay_scope(which, i, rb):
     """natively: evaluate a representative expression on a scope with one caller context and compare the scope's rendering before/after"""
     n = i.get("len", 2)
     lst = "[" + ",".join(str(100 + j) for j in range(max(n, 2))) + "]"
-    exprs = {"ForExpressionEvaluator": "for n in %s return n + 1" % lst,
-             "SomeExpressionEvaluator": "some n in %s satisfies n > 1000" % lst,
-             "EveryExpressionEvaluator": "every n in %s satisfies n > 1000" % lst,
-             "filter": "[{item: 1, q: 2}, {q: 3}, 7][q > 0]"}
-    _, out, _ = replay_call(rb, ["scope_after", "{outer: 10, n: 5}", exprs[which]])
-    return "CHANGED" in out, "%s on scope [{n: 5, outer: 10}] -> %s" % (exprs[which], out[:200])
+    # the solver's path fixes only the list length and the kinds of the body results: several representative bodies are tried
+    # (boolean results, null results, results of another kind, an early `false` / `true`)
+    exprs = {"ForExpressionEvaluator": ["for n in %s return n + 1" % lst, "for n in %s return null" % lst],
+             "SomeExpressionEvaluator": ["some n in %s satisfies n > 1000" % lst, "some n in %s satisfies null" % lst, "some n in %s satisfies n + 1" % lst,
+                                         "some n in %s satisfies n > 0" % lst, 'some n in [1, "a", 3] satisfies n > 0'],
+             "EveryExpressionEvaluator": ["every n in %s satisfies n > 1000" % lst, "every n in %s satisfies null" % lst, "every n in %s satisfies n + 1" % lst,
+                                          "every n in %s satisfies n > 0" % lst, 'every n in [1, "a", 3] satisfies n > 0'],
+             "filter": ["[{item: 1, q: 2}, {q: 3}, 7][q > 0]", "[{item: 1, q: 2}, {q: 3}, 7][null]", "[1, 2, 3][item > 1]", "[1, 2, 3][2]"]}
+    outs = []
+    for e in exprs[which]:
+        _, out, _ = replay_call(rb, ["scope_after", "{outer: 10, n: 5}", e])
+        outs.append((e, out))
+        if "CHANGED" in out:
+            return True, "%s on scope [{n: 5, outer: 10}] -> %s" % (e, out[:200])
+    return False, "; ".join("%s -> %s" % (e, o[:60]) for e, o in outs)
 
 
 # ----------------------------------------------------------------------------- parser side: a successful parse leaves the parsing scope as it found it
